@@ -187,6 +187,8 @@
 (assert (= (strsOf Sl.Any.empty) Sl.Str.empty))
 (assert (forall ((s Sl.Any) (x Any)) (! (= (strsOf (Sl.Any.snoc s x)) (Sl.Str.snoc (strsOf s) (unbox.string x))) :pattern ((strsOf (Sl.Any.snoc s x))))))
 (assert (forall ((s Sl.Any) (i Int)) (! (=> (and (allStrings s) (<= 0 i) (< i (Sl.Any.len s))) (= (dyn (Sl.Any.at s i)) tag.string)) :pattern ((allStrings s) (Sl.Any.at s i)))))
+; ... and conversely (allStrings is exactly "every element is a string"); used by the grammar typing derivation
+(assert (forall ((s Sl.Any)) (! (=> (forall ((i Int)) (! (=> (and (<= 0 i) (< i (Sl.Any.len s))) (= (dyn (Sl.Any.at s i)) tag.string)) :pattern ((Sl.Any.at s i)))) (allStrings s)) :pattern ((allStrings s)))))
 ; pointerstructure.Parse (A-PS): RFC 6901 decoding of "/a/b~1c"
 (declare-fun psParseOK (Str) Bool)
 (declare-fun psParts (Str) Sl.Str)
